@@ -5,7 +5,8 @@ set -u
 # optional: ingest.sh <ID> <A|B> <source prefix, e.g. seed2> <name suffix, e.g. C>
 ID="$1"; V="$2"; PFX="${3:-seed}"; NAME="${4:-$V}"; SRC="/tmp/${PFX}_${ID}_out/$V"; DST="/verif/seeded/${ID}-$NAME"
 [ -f "$SRC/patch.diff" ] || { echo "$ID-$NAME: nothing delivered"; exit 1; }
-C=$(/verif/selftest/confirm_seeded.sh "$SRC" 2>&1 | tail -1)
+# the confirmation may have been done beforehand (in parallel slots): $SRC/confirm.txt
+if [ -f "$SRC/confirm.txt" ]; then C=$(tail -1 "$SRC/confirm.txt"); else C=$(/verif/selftest/confirm_seeded.sh "$SRC" 2>&1 | tail -1); fi
 echo "$ID-$NAME: $C"
 case "$C" in CONFIRMED*) ;; *) exit 1;; esac
 mkdir -p "$DST"; cp "$SRC/patch.diff" "$SRC/demo.rs" "$DST/"
